@@ -12,7 +12,9 @@ package calc_test
 //        same history with every invalid value replaced by absence (a delete if the key held a
 //        valid value, nothing otherwise); after every flush the folded outputs (endpoints with
 //        their tier lists, active policies and profiles with all rules, IP set members) must be
-//        equal.
+//        equal.  Every KV version carries its own non-empty revision; a current value (valid or
+//        invalid) may be re-sent unchanged with the same revision, as a Typha snapshot re-send /
+//        resync does: B sees a valid value again and nothing at all for an invalid one.
 //  (iii) "never more open than absence" is implied by (ii): the outputs are *equal* to the
 //        outputs under absence (whether the outputs under absence are right is C03's subject).
 //
@@ -330,6 +332,12 @@ func (r *c05Run) finish() {
 	if r.h.nInvalid > 0 {
 		classes = append(classes, "has-invalid")
 	}
+	if r.h.invalidRedelivered > 0 {
+		classes = append(classes, "invalid-redelivered-same-revision")
+	}
+	if r.h.validRedelivered > 0 {
+		classes = append(classes, "valid-redelivered-same-revision")
+	}
 	seenVariant := map[string]bool{}
 	for _, l := range r.h.log {
 		if i := strings.Index(l, "INVALID("); i >= 0 {
@@ -354,14 +362,14 @@ var c05Weights = []string{
 	"prul", "prul", "prul", "prul", "plbl", "plbl",
 	"pol", "pol", "pol", "move", "tier",
 	"wep", "wep", "wep", "hep", "hep",
-	"del", "del", "del", "redeliver",
+	"del", "del", "del", "redeliver", "reinv", "reinv", "reinv",
 }
 
 // TestVerifC05FailClosedHistories: free histories with ~30 % invalid values.
 func TestVerifC05FailClosedHistories(t *testing.T) {
 	ev.Quiet()
 	rec := ev.New("C05", "histories",
-		"rapid-generated histories as in C03 (same universe) with profile-rules/profile/policy/endpoint sets replaced by an invalid variant with probability 0.3, run on two graphs (A: as generated, B: invalid replaced by absence) with identical batch/flush/in-sync schedule; compared after every flush. Non-trivial = at a checked flush a local endpoint referenced a profile without valid rules, or an invalid value was delivered for a key holding a valid value. Distinct = op-kind sequence + classes (incl. the invalid variants used)",
+		"rapid-generated histories as in C03 (same universe) with profile-rules/profile/policy/endpoint sets replaced by an invalid variant with probability 0.3, every KV version carrying its own non-empty revision and current values (valid or invalid) being re-sent unchanged with the same revision as a resync does, run on two graphs (A: as generated, B: invalid replaced by absence) with identical batch/flush/in-sync schedule; compared after every flush. Non-trivial = at a checked flush a local endpoint referenced a profile without valid rules, or an invalid value was delivered for a key holding a valid value. Distinct = op-kind sequence + classes (incl. the invalid variants used)",
 		"invalid variants are values rejected by calc.ValidationFilter on the unchanged tree (v1 backend validator, v3 validator for Profile resources, filter's own workload endpoint checks); tiers and rule actions have no validation and are not varied",
 		"(iii) 'never more open than absence' is established through equality with the absence run (ii)",
 		"selector semantics trusted from libcalico-go/lib/selector")
@@ -404,7 +412,7 @@ func TestVerifC05FailClosedHistories(t *testing.T) {
 func TestVerifC05ReferenceLifecycle(t *testing.T) {
 	ev.Quiet()
 	rec := ev.New("C05", "lifecycle",
-		"context (local workload+host endpoint referencing prof1/prof2, tiers, a matching policy) then 2-6 transitions of one target key (profile rules, profile resource, policy or endpoint) among valid / invalid variant / deleted, flush and compare after each transition; non-trivial as in the histories unit (true by construction for most cases)",
+		"context (local workload+host endpoint referencing prof1/prof2, tiers, a matching policy) then 2-6 transitions of one target key (profile rules, profile resource, policy or endpoint) among valid / invalid variant / deleted / same-revision redelivery, flush and compare after each transition; non-trivial as in the histories unit (true by construction for most cases)",
 		"same assumptions as the histories unit")
 	defer rec.Write()
 	rapid.Check(t, func(t *rapid.T) {
@@ -418,11 +426,14 @@ func TestVerifC05ReferenceLifecycle(t *testing.T) {
 		family := rapid.SampledFrom([]string{"prul", "prul", "prul", "plbl", "pol", "wep", "hep"}).Draw(t, "targetFamily")
 		nTrans := rapid.IntRange(2, 6).Draw(t, "numTransitions")
 		for i := 0; i < nTrans; i++ {
-			switch rapid.IntRange(0, 5).Draw(t, "transition") {
+			switch rapid.IntRange(0, 7).Draw(t, "transition") {
 			case 0, 1:
 				r.batch(1, []string{family}, 0)
 			case 2, 3, 4:
 				r.batch(1, []string{family}, 100)
+			case 5, 6:
+				// resync-style re-send of a current value (an invalid one if there is any)
+				r.batch(1, []string{"reinv"}, 0)
 			default:
 				r.batch(1, []string{"del"}, 0)
 			}
